@@ -58,6 +58,8 @@ pub struct State {
     entered: Vec<bool>,
     /// PileUp: threads parked at the pile-up site; `released` once the pile was let go
     parked: Vec<bool>,
+    /// threads that wait for another simulated thread to act (a generator hand-over): not runnable until notified
+    waiting: Vec<bool>,
     released: bool,
     pub max_piled: usize,
     pub tainted: bool,
@@ -90,8 +92,11 @@ thread_local! {
 
 impl State {
     fn pick(&mut self, now: u64) -> (usize, u64) {
-        let mut alive: Vec<usize> = (0..self.alive.len()).filter(|i| self.alive[*i] && !self.blocked[*i]).collect();
+        let mut alive: Vec<usize> = (0..self.alive.len()).filter(|i| self.alive[*i] && !self.blocked[*i] && !self.waiting[*i]).collect();
         if alive.is_empty() {
+            for w in self.waiting.iter_mut() {
+                *w = false;
+            }
             // Everybody still alive was declared blocked. The verdict "blocked" can be wrong (it is taken
             // from a look at /proc), and a thread that is merely parked in our own condition variable
             // would then never be scheduled again. So: give the blocked threads another chance. If they
@@ -119,7 +124,7 @@ impl State {
         }
         if let Some(q) = self.forced.as_mut() {
             match q.pop_front() {
-                Some((t, ran, fin)) if self.alive.get(t as usize).copied().unwrap_or(false) && !self.blocked[t as usize] => return (t as usize, if fin { ran + 1 } else { ran.max(1) }),
+                Some((t, ran, fin)) if self.alive.get(t as usize).copied().unwrap_or(false) && !self.blocked[t as usize] && !self.waiting[t as usize] => return (t as usize, if fin { ran + 1 } else { ran.max(1) }),
                 _ => self.diverged = true,
             }
         }
@@ -172,6 +177,7 @@ impl Sched {
             blocked: vec![false; nthreads],
             entered: vec![false; nthreads],
             parked: vec![false; nthreads],
+            waiting: vec![false; nthreads],
             released: false,
             max_piled: 0,
             tainted: false,
@@ -411,6 +417,37 @@ pub fn yield_point(site: u32) {
     let ctx = CTX.with(|c| c.borrow().clone());
     if let Some((s, id)) = ctx {
         s.switch(id, site);
+    }
+}
+
+/// The calling simulated thread cannot proceed until another simulated thread has acted: it gives the baton
+/// away and is not scheduled again before `notify_event` (or before nobody else can run).
+pub fn wait_event() {
+    if !ACTIVE.with(|a| a.get()) {
+        return;
+    }
+    let ctx = CTX.with(|c| c.borrow().clone());
+    if let Some((s, id)) = ctx {
+        {
+            let mut st = s.m.lock().unwrap();
+            st.waiting[id] = true;
+        }
+        RAN.with(|r| r.set(r.get() + 1));
+        s.switch(id, 0);
+    }
+}
+
+/// Something a waiting thread may be waiting for has happened: all waiters become runnable again.
+pub fn notify_event() {
+    if !ACTIVE.with(|a| a.get()) {
+        return;
+    }
+    let ctx = CTX.with(|c| c.borrow().clone());
+    if let Some((s, _)) = ctx {
+        let mut st = s.m.lock().unwrap();
+        for w in st.waiting.iter_mut() {
+            *w = false;
+        }
     }
 }
 
